@@ -215,6 +215,7 @@ Proof.
   destruct Hd as [[[Hru Hca] Hfr] _].
   unfold sync_body. destruct (st_freq (e_strategy e)) as [freq|]; [|discriminate].
   destruct (sync_gate sn freq); [apply no_panic_ok|].
+  destruct (f_list (sn_faults sn)); [apply no_panic_error|].
   apply bind_no_panic; [apply build_ctx_no_panic|]. intros cx Hb.
   apply bind_no_panic.
   - unfold strategy_of. destruct (cx_role cx).
